@@ -8,6 +8,9 @@ spec->code: TLC enumerates every ordered pair of option sets that differ in exac
          vector / every documented cpp family (both directions), all identical pairs of those vectors, and a simulated set with
          several differences; python generates type headers with `a`, the support header with `b` (real generator of the current
          tree), compiles one translation unit including both (-fsyntax-only) and compares with the outcome the P-layer fixes.
+         The identical-options side quantifies over TYPES as well: every identical pair for which P fixes `builds` is also built
+         with a namespace of ~120 type shapes (shape_types) that reach the option-dependent code paths of the generated codecs
+         (e.g. the little-endian fast path exists only for a byte-aligned field wider than 8 bits) - one build per option set.
 code->spec: the same builds plus seeded random pairs (undocumented string values, unicode, near-identical strings) and pairs whose
          one side is generated through the nnvg command line; every build is one `compile{...}` record judged by
          specs/OptionGuardTrace.tla (P-layer verdict; I-layer notes: which assertions fail, CRC-32 rendering of the constants).
@@ -44,6 +47,57 @@ FIXTURE = {
 H_BASE = ["Empty", "Msg", "Un", "Svc", "sub/Inner"]
 H_DEFCTOR = ["UnC"]            # a union of composites default-constructs them: only with a default-constructible allocator
 H_FLOAT = ["fl/Flt", "fl/FltU"]  # only when the type headers were generated with float support
+
+def shape_types():
+    """A second namespace (shp) of TYPE SHAPES that reach the option-dependent code paths of the generated (de)serializers: the
+    identical-options side of the property quantifies over types, and e.g. the little-endian fast path is only emitted for a
+    byte-aligned field wider than 8 bits (such as the 16-bit length prefix of an array with capacity > 255).  Sub-directories mark
+    what a shape needs: fl = floating point support, dc = a default-constructible allocator (unions holding composites)."""
+    t = {
+        "El.1.0.dsdl": "uint8 a\nuint16 b\n@sealed\n",
+        "ElD.1.0.dsdl": "uint8 a\nint32[<=2] w\n@extent 16*8\n",
+        "Empty.1.0.dsdl": "@sealed\n",
+        "EmptyD.1.0.dsdl": "@extent 0\n",
+    }
+    elems = [("B", "bool", ""), ("U8", "uint8", ""), ("U16", "uint16", ""), ("U24", "uint24", ""), ("I40", "int40", ""),
+             ("El", "El.1.0", ""), ("ElD", "ElD.1.0", ""), ("F32", "float32", "fl/"), ("F16", "float16", "fl/")]
+    fq = {"El.1.0": "shp.El.1.0", "ElD.1.0": "shp.ElD.1.0"}
+    for en, et, d in elems:
+        et = fq.get(et, et) if d else et
+        for cap in (255, 256, 65535, 65536):
+            if en in ("I40", "F16") and cap in (255, 65535):
+                continue
+            for al, pad in (("A", ""), ("U", "uint3 p\n")):
+                t["%sVa%sC%d%s.1.0.dsdl" % (d, en, cap, al)] = "%s%s[<=%d] v\nuint16 tail\n@sealed\n" % (pad, et, cap)
+        for n in (2, 256):
+            for al, pad in (("A", ""), ("U", "bool p\n")):
+                # a fixed array of composites value-initializes its elements: needs default-constructible composites (dc)
+                dd, ee = ("dc/", fq[et]) if et in fq else (d, et)
+                t["%sFa%sN%d%s.1.0.dsdl" % (dd, en, n, al)] = "%s%s[%d] v\nuint8 tail\n@extent 8 * 1000000\n" % (pad, ee, n)
+    ints = "".join("%s%d %s%d\n" % (k, w, k[0], w) for w in (8, 16, 24, 32, 40, 64) for k in ("uint", "int"))
+    ints += "".join("truncated uint%d t%d\n" % (w, w) for w in (8, 16, 24, 32, 40, 64))
+    t["IntsA.1.0.dsdl"] = ints + "@sealed\n"
+    t["IntsU.1.0.dsdl"] = "bool p\n" + ints + "@sealed\n"
+    t["IntsOdd.1.0.dsdl"] = "uint3 a\nint5 b\nuint7 c\nuint9 d\nint13 e\nuint17 f\ntruncated uint33 g\nint63 h\nvoid7\nbool i\nuint1 j\n@sealed\n"
+    fl = "".join("%sfloat%d %s%d\n" % (m + " " if m else "", w, m[:1] or "s", w) for w in (16, 32, 64) for m in ("", "truncated"))
+    t["fl/FloatsA.1.0.dsdl"] = fl + "@sealed\n"
+    t["fl/FloatsU.1.0.dsdl"] = "uint5 p\n" + fl + "@extent 64 * 8\n"
+    t["NestA.1.0.dsdl"] = "El.1.0 e\nElD.1.0 d\nEmpty.1.0 x\nEmptyD.1.0 y\nVaU16C256A.1.0 va\nVaBC65536U.1.0 vb\nFaU24N2U.1.0 fa\n@sealed\n"
+    t["NestU.1.0.dsdl"] = "bool p\nEl.1.0 e\nuint3 q\nElD.1.0 d\nvoid1\nVaU8C256U.1.0 va\nIntsU.1.0 i\n@extent 8 * 1000000\n"
+    t["NestDeep.1.0.dsdl"] = "NestU.1.0[<=2] n\nNestA.1.0[<=3] m\nElD.1.0[<=256] d\n@sealed\n"
+    t["dc/NestFix.1.0.dsdl"] = "shp.NestU.1.0[2] n\nshp.NestA.1.0[2] m\nFaElN2U.1.0 f\n@sealed\n"
+    t["UnPrim.1.0.dsdl"] = "@union\nuint8 a\nuint16 b\nint64 c\nbool d\ntruncated uint24 e\n@sealed\n"
+    t["UnArr.1.0.dsdl"] = "@union\nuint8[<=256] a\nuint16[3] b\nbool[<=65536] c\nuint24[<=255] d\nbool[9] e\n@extent 8 * 100000\n"
+    t["UnHold.1.0.dsdl"] = "uint3 p\nUnPrim.1.0 u\nUnArr.1.0 w\nUnPrim.1.0[<=256] us\n@sealed\n"
+    t["dc/UnComp.1.0.dsdl"] = "@union\nshp.El.1.0 a\nshp.ElD.1.0 b\nshp.Empty.1.0 c\nshp.VaU16C256A.1.0 d\nshp.El.1.0[<=256] e\nuint8 f\n@extent 8 * 100000\n"
+    t["dc/UnCompHold.1.0.dsdl"] = "bool p\nUnComp.1.0 u\nUnComp.1.0[<=256] us\nUnComp.1.0[2] uf\n@sealed\n"
+    t["fl/UnFl.1.0.dsdl"] = "@union\nfloat16 a\nfloat64 b\nfloat32[<=256] c\nuint8 d\n@sealed\n"
+    t["fl/dc/UnFlComp.1.0.dsdl"] = "@union\nshp.fl.FloatsA.1.0 a\nshp.El.1.0 b\nfloat32 c\n@sealed\n"
+    t["SvcShapes.1.0.dsdl"] = ("uint16[<=256] a\nbool[<=255] b\nEl.1.0[<=2] c\n@sealed\n---\nUnPrim.1.0 u\nuint8[<=65536] blob\nElD.1.0 d\n"
+                               "@extent 8 * 100000\n")
+    t["SvcEmpty.1.0.dsdl"] = "@sealed\n---\n@sealed\n"
+    return t
+
 
 # small stand-ins for the two CETL headers named by the cetl++14-17 group (CETL itself is not available offline); they exist so that
 # the documented option VALUES can be used: a missing include would be a fatal error that hides every later diagnostic.
@@ -207,11 +261,17 @@ class Builder:
             p = self.ns / rel
             p.parent.mkdir(parents=True, exist_ok=True)
             p.write_text(txt)
+        self.ns_shp = self.root / "dsdl" / "shp"
+        for rel, txt in shape_types().items():
+            p = self.ns_shp / rel
+            p.parent.mkdir(parents=True, exist_ok=True)
+            p.write_text(txt)
         self.cetl = self.root / "standin"
         (self.cetl / "cetl" / "pf17" / "sys").mkdir(parents=True)
         (self.cetl / "cetl" / "variable_length_array.hpp").write_text(CETL_VLA)
         (self.cetl / "cetl" / "pf17" / "sys" / "memory_resource.hpp").write_text(CETL_MEMRES)
-        self.gen = {}  # vkey -> (dir | None, error | None)
+        self.gen = {}  # vkey -> (dir | None, error | None)          fixture namespace vns
+        self.gen_shp = {}  # the same for the shape namespace shp
         self.env = dict(os.environ, LC_ALL="C", LANG="C")
         self.nmix = itertools.count(1)  # next() is atomic under the GIL (builds run in threads)
         for cc in ("gcc", "g++"):
@@ -220,15 +280,17 @@ class Builder:
         self.have_clang = shutil.which("clang") is not None and shutil.which("clang++") is not None
 
     # ---- generation (parallel, forked workers import the tree's nunavut once)
-    def generate(self, wanted):
-        """wanted: iterable of (lang, vec)"""
+    def generate(self, wanted, ns="vns"):
+        """wanted: iterable of (lang, vec); ns: which namespace (vns: fixture of the pair builds, shp: the type shapes)"""
+        store = self.gen if ns == "vns" else self.gen_shp
+        nsdir = self.ns if ns == "vns" else self.ns_shp
         jobs, keys = [], []
         for lang, vec in wanted:
             k = vkey(lang, vec)
-            if k in self.gen or k in keys:
+            if k in store or k in keys:
                 continue
             keys.append(k)
-            jobs.append((lang, self.m.language_options(lang, vec), str(self.ns), str(self.root / "gen" / k)))
+            jobs.append((lang, self.m.language_options(lang, vec), str(nsdir), str(self.root / ("gen-" + ns) / k)))
         if not jobs:
             return
         import nunavut  # noqa: F401  (imported before forking)
@@ -236,7 +298,7 @@ class Builder:
         with multiprocessing.get_context("fork").Pool(min(NCPU, len(jobs))) as pool:
             res = pool.map(_gen_job, jobs, chunksize=1)
         for k, job, err in zip(keys, jobs, res):
-            self.gen[k] = (None, err) if err else (pathlib.Path(job[3]), None)
+            store[k] = (None, err) if err else (pathlib.Path(job[3]), None)
 
     def generate_cli(self, lang, args, tag):
         """one option set through the nnvg command line; returns the output directory"""
@@ -248,19 +310,28 @@ class Builder:
         return out, None
 
     # ---- one build
-    def headers_for(self, lang, a, dir_a):
-        """every generated type header of the fixture namespace (found, not assumed), minus those that cannot build with `a` for
-        reasons of their own: float users without float support, unions of composites without a default-constructible allocator"""
+    def headers_for(self, lang, a, dir_a, ns="vns"):
+        """every generated type header of the namespace (found, not assumed), minus those that cannot build with `a` for reasons of
+        their own: float users without float support; types that value-initialize composites (unions holding composites, fixed arrays
+        of composites) without a default-constructible allocator.  vns marks them by name, shp by sub-directory (fl, dc)."""
         ea = pyvec(self.m.expand(lang, a))
+        no_dc = lang == "cpp" and ea.get("allocator_is_default_constructible", True) is False
+        no_fl = bool(ea.get("omit_float_serialization_support"))
         skip = []
-        if lang == "cpp" and ea.get("allocator_is_default_constructible", True) is False:
+        if no_dc:
             skip += [pathlib.PurePosixPath(h).name for h in H_DEFCTOR]
-        if ea.get("omit_float_serialization_support"):
+        if no_fl:
             skip += [pathlib.PurePosixPath(h).name for h in H_FLOAT]
         hs = []
-        for f in sorted((dir_a / "vns").rglob("*")):
-            if f.is_file() and f.suffix in (".h", ".hpp") and not any(f.name.startswith(x + "_") for x in skip):
-                hs.append(str(pathlib.PurePosixPath("vns") / f.relative_to(dir_a / "vns").as_posix()))
+        for f in sorted((dir_a / ns).rglob("*")):
+            if not (f.is_file() and f.suffix in (".h", ".hpp")):
+                continue
+            rel = f.relative_to(dir_a / ns)
+            if ns == "vns" and any(f.name.startswith(x + "_") for x in skip):
+                continue
+            if ns == "shp" and ((no_dc and "dc" in rel.parts[:-1]) or (no_fl and "fl" in rel.parts[:-1])):
+                continue
+            hs.append(str(pathlib.PurePosixPath(ns) / rel.as_posix()))
         if len(hs) < len(H_BASE):
             raise MachineryFailure("generated type headers not found under %s" % dir_a)
         return hs
@@ -273,16 +344,15 @@ class Builder:
         return [{"gcc": "g++", "clang": "clang++"}[compiler], "-std=" + std, "-fsyntax-only", NOLIMIT[compiler], "-DNUNAVUT_ASSERT(x)=assert(x)", "-I", str(mix),
                 "-I", str(self.cetl), str(tu)]
 
-    def build(self, lang, a, dir_a, dir_b, compiler="gcc"):
+    def build(self, lang, a, dir_a, dir_b, compiler="gcc", ns="vns"):
         """translation unit including the type headers of dir_a and (through them) the support header of dir_b"""
         mix = self.root / "mix" / ("m%06d" % next(self.nmix))
         mix.mkdir(parents=True)
-        os.symlink(dir_a / "vns", mix / "vns")           # the generated types of a
+        os.symlink(dir_a / ns, mix / ns)                 # the generated types of a
         for e in sorted(dir_b.iterdir()):                 # everything else (the support library) from b
-            if e.name != "vns":
+            if e.name != ns:
                 os.symlink(e, mix / e.name)
-        ext = "h" if lang == "c" else "hpp"
-        hs = self.headers_for(lang, a, dir_a)
+        hs = self.headers_for(lang, a, dir_a, ns)
         tu = mix / ("tu." + ("c" if lang == "c" else "cpp"))
         tu.write_text("#include <assert.h>\n" + "".join('#include "%s"\n' % h for h in hs) + "int main(void) { return 0; }\n")
         cmd = self.compile_cmd(lang, a, mix, tu, compiler)
@@ -290,14 +360,14 @@ class Builder:
             p = subprocess.run(cmd, capture_output=True, text=True, env=self.env, timeout=300)
         except subprocess.TimeoutExpired:
             raise MachineryFailure("compiler timed out: %s" % " ".join(cmd))
-        obs = self.parse(lang, mix, hs, p.returncode, p.stderr)
+        obs = self.parse(lang, mix, hs, p.returncode, p.stderr, ns)
         obs["defs"] = self.scrape_defs(lang, dir_b)
         obs["asrt"] = self.scrape_asserts(lang, dir_a / hs[0])
         obs["cmd"] = " ".join(cmd[:4])
         shutil.rmtree(mix, ignore_errors=True)
         return obs
 
-    def parse(self, lang, mix, hs, rc, err):
+    def parse(self, lang, mix, hs, rc, err, ns="vns"):
         fired_headers, fired, known = [], [], True
         first_error = None
         any_named = False
@@ -312,7 +382,7 @@ class Builder:
                 rel = str(f.relative_to(mix))
             except ValueError:
                 rel = f.name
-            role = "type-header" if rel.startswith("vns/") else ("support-header" if (mix / rel).exists() and "/" in rel else "other")
+            role = "type-header" if rel.startswith(ns + "/") else ("support-header" if (mix / rel).exists() and "/" in rel else "other")
             if m.group("kind") == "fatal error":
                 fatal = True
             if first_error is None:
@@ -320,7 +390,8 @@ class Builder:
                     where = f.read_text(errors="replace").splitlines()[int(m.group("line")) - 1]
                 except (OSError, IndexError):
                     where = m.group("msg").replace("‘", "'").replace("’", "'")
-                first_error = role + ":" + re.sub(r"\s+", " ", re.sub(r"\d+", "N", where)).strip()[:70]
+                first_error = (role + ("[%s]" % pathlib.PurePosixPath(rel).stem if role == "type-header" else "") + ":"
+                               + re.sub(r"\s+", " ", re.sub(r"\d+", "N", where)).strip()[:70])
             if not _RE_SA.search(m.group("msg")):
                 continue
             # the statement that failed, read from the generated file (robust against diagnostic formats)
@@ -357,7 +428,7 @@ class Builder:
         res = {}
         txt = ""
         for f in sorted(d.rglob("*")):
-            if f.is_file() and f.suffix in (".h", ".hpp") and "vns" not in f.relative_to(d).parts[:1]:
+            if f.is_file() and f.suffix in (".h", ".hpp") and f.relative_to(d).parts[0] not in ("vns", "shp"):
                 try:
                     txt += f.read_text(errors="replace")
                 except OSError:
@@ -481,6 +552,28 @@ class Campaign:
             self.add(p[0], p[1], p[2], o, source, compiler)
         return res
 
+    def run_shapes(self, vecs, compiler="gcc"):
+        """identical option sets x type shapes: ONE build per option set of a translation unit that includes every shape header
+        generated with it (and its own support header).  vecs: list of (lang, a, case).  Returns [(lang, a, case, obs)]."""
+        self.b.generate([(l, a) for l, a, _ in vecs], ns="shp")
+        todo = []
+        for l, a, c in vecs:
+            d, err = self.b.gen_shp[vkey(l, a)]
+            if d is None:
+                raise MachineryFailure("type shapes could not be generated for %s %r: %s" % (l, self.m.language_options(l, a), err))
+            if (str(d), str(d), compiler) not in self.cache:
+                todo.append((l, a, d))
+        with concurrent.futures.ThreadPoolExecutor(max_workers=NCPU) as ex:
+            for (l, a, d), o in zip(todo, ex.map(lambda t: self.b.build(t[0], t[1], t[2], t[2], compiler, ns="shp"), todo)):
+                self.cache[(str(d), str(d), compiler)] = o
+        out = []
+        for l, a, c in vecs:
+            d = self.b.gen_shp[vkey(l, a)][0]
+            o = self.cache[(str(d), str(d), compiler)]
+            self.add(l, a, a, o, "shapes", compiler)
+            out.append((l, a, c, o))
+        return out
+
     def add(self, lang, a, b, obs, source, compiler):
         rid = len(self.recs)
         self.recs.append(record(rid, lang, a, b, obs, self.m.keys[lang]))
@@ -489,7 +582,8 @@ class Campaign:
         ea, eb = self.m.expand(lang, a), self.m.expand(lang, b)
         diff = sorted(k for k in ea if ea[k] != eb[k])
         cls = "same" if not diff else ("1:" + diff[0] if len(diff) == 1 else "n:%d" % len(diff))
-        self.ctx.distinct("%s|%s|%s|%s|%s" % (lang, compiler, cls, vkey(lang, a)[-8:], vkey(lang, b)[-8:]), nontrivial=True)
+        self.ctx.distinct("%s|%s|%s|%s|%s|%s" % (lang, compiler, cls, vkey(lang, a)[-8:], vkey(lang, b)[-8:], "shp" if source == "shapes" else "-"),
+                          nontrivial=True)
         return rid
 
     def judge(self, recs=None):
@@ -796,11 +890,30 @@ def run(ctx):
             if case["i_rc"] in (0, 1) and obs["fired_known"] and sorted(obs["fired"]) != sorted(case["i_fired"]) and clause is None:
                 ctx.drift("failing assertions %r differ from the I-layer prediction %r (%s)" % (obs["fired"], case["i_fired"], lang))
     ctx.cov["generator_refusals"] = {"total": n_generr, "predicted_by_model(Valid)": n_invalid_expected}
+    phase(ctx, "enumerated pairs built")
+
+    # 2b. identical option sets x TYPE SHAPES: every identical pair TLC printed for which P fixes `builds` (all 48 c vectors; the cpp
+    # bases and their coherent neighbours) is also built with the shape namespace - one build per option set covers every shape.
+    shp = [(c["lang"], c["a"], c) for c in cases if c["p_ok"] == "yes" and c["a"] == c["b"] and c["valid_a"]]
+    if len([1 for l, _, _ in shp if l == "c"]) < 48 or len([1 for l, _, _ in shp if l == "cpp"]) < 20:
+        raise MachineryFailure("too few identical option sets for the shape builds: %d" % len(shp))
+    nshape_hdr = 0
+    for compiler in compilers:
+        for lang, a, case, obs in camp.run_shapes(shp, compiler):
+            nshape_hdr += len(obs["headers"])
+            clause = p_expect_clause(case, obs)
+            if clause:
+                ctx.violation(signature(lang, clause, a, a, obs, model), describe(lang, clause, a, a, obs, model) + " [type shapes]",
+                              {"lang": lang, "a": a, "b": a, "compiler": compiler, "source": "shapes", "clause": clause,
+                               "a_options": model.language_options(lang, a), "b_options": model.language_options(lang, a),
+                               "expected_by_P": {"ok": case["p_ok"], "mismatch_message": case["p_msg"]},
+                               "observed": {k: obs[k] for k in ("rc", "msg", "fired", "fired_headers", "first_error", "stderr_head")}})
+    ctx.cov["shape_builds"] = {"option_sets": len(shp), "compilers": compilers, "shape_types": len(shape_types()), "type_headers_compiled": nshape_hdr}
+    phase(ctx, "shape builds done")
     ex = next(c for c in cases if c["lang"] == "cpp" and c["p_ok"] == "no" and len(c["reqdiff"]) == 1)
     ctx.sample({"direction": "spec->code", "lang": "cpp", "differs_in": ex["reqdiff"], "types_options": model.language_options("cpp", ex["a"]),
                 "support_options": model.language_options("cpp", ex["b"]), "expected_by_P": {"ok": ex["p_ok"], "mismatch_message": ex["p_msg"]}})
 
-    phase(ctx, "enumerated pairs built")
     # 3. code -> spec: seeded random pairs (incl. undocumented / unicode / near-identical values) and the command-line path
     rp = random_pairs(ctx, model, ctx.pick(100, 1000))
     res = camp.run_pairs(rp, "random")
@@ -858,9 +971,12 @@ def run(ctx):
     ctx.cov["rule"] = ("one evaluation = one build of a translation unit (type headers generated with option set a + support header generated with "
                        "option set b, -fsyntax-only, %s); spec->code: every pair printed by TLC (all ordered pairs differing in exactly one documented "
                        "option value around all 48 c vectors and %s, both directions, all identical pairs of the vectors "
-                       "involved, simulated pairs with up to 6 differing options); code->spec: seeded random pairs incl. undocumented string values and "
+                       "involved, simulated pairs with up to 6 differing options; every identical pair for which P fixes `builds` additionally with a namespace "
+                       "of %d type shapes - variable/fixed arrays of bool/uint8/uint16/uint24/int40/float/composite elements with capacity 255/256/65535/65536 "
+                       "at aligned and unaligned offsets, integers 8..64 aligned/unaligned, floats, nested sealed/delimited composites, unions, empty "
+                       "types, services); code->spec: seeded random pairs incl. undocumented string values and "
                        "nnvg command-line generated sides; distinct = (target, compiler, which option(s) differ, option vector a, option vector b)"
-                       % ("+".join(compilers), ctx.pick("7 representatives of the documented cpp families", "the 14 documented cpp families")))
+                       % ("+".join(compilers), ctx.pick("7 representatives of the documented cpp families", "the 14 documented cpp families"), len(shape_types())))
     ctx.cov["exhaustive"] = False
     ctx.assumptions += ["TLC and the OptionGuardP/OptionGuard/OptionGuardTrace specifications",
                         "gcc/g++ 12 (thorough: also clang 14) evaluate static assertions under -fsyntax-only as in a full build",
@@ -883,6 +999,10 @@ def replay(ctx, case):
     camp = Campaign(ctx, model, builder)
     if "option" in case and "a" not in case:
         collision_report(ctx, model)
+        return
+    if case.get("source") == "shapes":
+        camp.run_shapes([(case["lang"], case["a"], None)], case.get("compiler", "gcc"))
+        camp.judge()
         return
     res = camp.run_pairs([(case["lang"], case["a"], case["b"])], "replay", case.get("compiler", "gcc"))
     if res[0][1] is None:
